@@ -489,7 +489,7 @@ def _emit_order(m: Model):
 order_classes = _emit_order  # noqa: F811  (replaces the draft above)
 
 # --------------------------------------------------------------------------------------- generator
-SAFE_WORDS = ["alpha", "beta", "x y", "Hello World", "a", "zeta-9", "ÄÖ ü", "中文", "q&a", "a<b", "c>d", "it's", 'say "hi"', "]]>", "tab\there", "line\nbreak", " lead", "trail ", "  ", "", "😀", "é́"]
+SAFE_WORDS = ["alpha", "beta", "x y", "Hello World", "a", "zeta-9", "ÄÖ ü", "中文", "q&a", "a<b", "c>d", "it's", 'say "hi"', "]]>", "tab\there", "line\nbreak", " lead", "trail ", "  ", "", "😀", "é́", "cr\rmid", "trail\r", "a\r\rb", "\r\n", "\r", "\n", "\tx"]
 UNION_SAFE_WORDS = ["alpha", "beta gamma", "Hello", "zeta-x", "q&a", "a<b", "中文"]
 LOCAL_NAMES = ["aa", "bb", "itemz", "value", "x-z", "n.m", "_u", "Élan", "data1", "Itemz", "ITEMZ", "fooBar", "foo_bar"]  # disjoint from every name generator output of the python field names
 
